@@ -173,6 +173,15 @@ def _nullable_get(call) -> bool:
     return False
 
 
+def _has_fallback(o) -> bool:
+    """the nullable call is a non-last operand of `a or b` in its defining assignment: None is replaced by the fallback"""
+    st = o.at.ast if o.at is not None else None
+    if isinstance(st, ast.Assign) and isinstance(st.value, ast.BoolOp) and isinstance(st.value.op, ast.Or):
+        vals = st.value.values
+        return any(v is o.node for v in vals[:-1])
+    return False
+
+
 def _guarded(fa, n, name: str, use: ast.AST) -> bool:
     """the use of `name` at node n is protected by a must-fact (truthy / is not None / isinstance) or by the
     expression context (`name and ...`, `... if name else ...`, `name or default`)"""
@@ -254,7 +263,8 @@ def r15cf(run):
                         continue
                     name = use.id
                     origins = P.of_name(n, name)
-                    nullable = [o for o in origins if o.kind == "call" and _nullable_get(o.node)]
+                    nullable = [o for o in origins if o.kind == "call" and _nullable_get(o.node)
+                                and not _has_fallback(o)]
                     if kind == "call" and name in BUILTIN_NAMES:
                         shadow_calls += 1
                         noncallable = [o for o in origins if o.kind in ("call", "const", "sub", "literal")]
@@ -297,7 +307,10 @@ def r15cf(run):
     run.notes.append(f"R15c: calls of locals that shadow a builtin: {shadow_calls}")
 
 
-SCHEMA_METHODS = ("parse_type", "parse_array", "parse_object", "parse_field")
+def schema_methods(C):
+    """translator methods: those of JsonSchemaParser that take the (sub)schema as `schema` and dispatch / recurse"""
+    return tuple(sorted(m.name for m in C.methods.values() if "schema" in m.params and m.name != "get_constraints"))
+
 
 
 def _arg_kind(fa, n, e, param: str) -> str:
@@ -361,6 +374,10 @@ def _arg_kind(fa, n, e, param: str) -> str:
 
 def r15d(run):
     C = run.repo.cls(PARSER, "JsonSchemaParser")
+    SCHEMA_METHODS = schema_methods(C)
+    for need in ("parse_type", "parse_array", "parse_object", "parse_field"):
+        if need not in SCHEMA_METHODS:
+            raise AnalysisError(f"JsonSchemaParser.{need} not found")
     edges = {}   # caller -> list of (callee, kind, node)
     total = 0
     for name in SCHEMA_METHODS:
@@ -511,8 +528,118 @@ def r15e(run):
               necessity="input under the schema's property name is no longer accepted by the built class")
 
 
+def r15g(run):
+    """a memo of translated types is keyed by everything the translation depends on"""
+    C = run.repo.cls(PARSER, "JsonSchemaParser")
+    memos = 0
+    for f in C.methods.values():
+        fa = analysis(f)
+        for n in fa.cfg.nodes:
+            if n.kind != "stmt" or not isinstance(n.ast, ast.Assign):
+                continue
+            t = n.ast.targets[0]
+            if not (isinstance(t, ast.Subscript) and isinstance(t.value, ast.Attribute) and unparse(t.value.value) == "self"):
+                continue
+            v = n.ast.value
+            if not (isinstance(v, ast.Call) and isinstance(v.func, ast.Attribute) and unparse(v.func.value) == "self"
+                    and v.func.attr in C.methods):
+                continue
+            memos += 1
+            key = t.slice
+            key_names = set(names_in(key))
+            for nm in list(key_names):
+                if nm in fa.rd.locals:
+                    for o in prov(fa).of_name(n, nm):
+                        if o.node is not None and isinstance(o.node, ast.AST):
+                            key_names |= names_in(o.node)
+                        if o.kind in ("literal", "expr") and o.at is not None and o.at.ast is not None:
+                            key_names |= names_in(o.at.ast)
+            args = [a for a in v.args if isinstance(a, ast.Name)] + [k.value for k in v.keywords if isinstance(k.value, ast.Name)]
+            missing = sorted({a.id for a in args if a.id in f.params and a.id not in key_names})
+            run.check("R15g", f, f"the memo `{unparse(t.value)}` is keyed by every argument of `{v.func.attr}`", not missing,
+                      construct=f"memo key of {unparse(t.value)} omits {missing}",
+                      message=f"{f.qualname}: `{norm_stmt(n.ast)[:80]}` memoises the result of {v.func.attr}(...) under "
+                              f"`{unparse(key)}`, which does not depend on {missing}",
+                      necessity="the same sub-schema translated once without and once with its constraints "
+                                "(with_constraints) shares one memo entry: array items reuse the unconstrained type built "
+                                "for a property and return values the schema forbids", node=n.ast)
+    run.ob("R15g", C.ref, "memoised translations are keyed completely", True, detail=f"{memos} memo store(s)", nontrivial=False)
+
+
+def r15h(run):
+    """the sanitised name never starts with an underscore (such attributes are private: not fields)"""
+    g = run.repo.func(PARSER, "JsonSchemaParser.get_attname")
+    fa = analysis(g)
+    P = prov(fa)
+
+    def state(n, e, depth=0) -> str:
+        """'clean' | 'dirty'"""
+        if depth > 8:
+            raise AnalysisError("R15h: definition chain too deep")
+        if isinstance(e, ast.Name):
+            res = set()
+            for d in fa.rd.defs_of(n, e.id):
+                if d is fa.cfg.entry:
+                    res.add("dirty")     # the raw parameter
+                elif d.kind == "stmt" and isinstance(d.ast, ast.Assign):
+                    res.add(state(d, d.ast.value, depth + 1))
+                elif d.kind == "stmt" and isinstance(d.ast, ast.AugAssign) and isinstance(d.ast.op, ast.Add):
+                    res.add(state(d, d.ast.target, depth + 1) if isinstance(d.ast.target, ast.Name) else "dirty")
+                else:
+                    raise AnalysisError(f"R15h: unsupported definition `{norm_stmt(d.ast)[:60]}`")
+            return "dirty" if "dirty" in res or not res else "clean"
+        if isinstance(e, ast.Call) and isinstance(e.func, ast.Attribute) and e.func.attr in ("strip", "lstrip") \
+                and e.args and isinstance(e.args[0], ast.Constant) and "_" in str(e.args[0].value):
+            return "clean"
+        if isinstance(e, ast.BinOp) and isinstance(e.op, ast.Add):
+            if isinstance(e.left, ast.Constant):
+                return "dirty" if str(e.left.value).startswith("_") else "clean" if e.left.value else state(n, e.right, depth + 1)
+            return state(n, e.left, depth + 1)
+        if isinstance(e, ast.JoinedStr) and e.values:
+            first = e.values[0]
+            if isinstance(first, ast.Constant):
+                return "dirty" if str(first.value).startswith("_") else "clean"
+            if isinstance(first, ast.FormattedValue):
+                return state(n, first.value, depth + 1)
+        if isinstance(e, ast.IfExp):
+            a, b = state(n, e.body, depth + 1), state(n, e.orelse, depth + 1)
+            return "dirty" if "dirty" in (a, b) else "clean"
+        raise AnalysisError(f"R15h: cannot classify `{unparse(e)[:60]}` in get_attname")
+
+    rets = [n for n in fa.cfg.nodes if n.kind == "stmt" and isinstance(n.ast, ast.Return) and fa.cfg.is_live(n)]
+    run.floor("R15h", "returns of get_attname", len(rets), 1)
+    # the AugAssign definition reads the previous value: defs_of at the aug node itself
+    for r in rets:
+        st = state(r, r.ast.value)
+        run.check("R15h", g, "the sanitised name cannot start with an underscore", st == "clean",
+                  construct="sanitised name may start with '_'",
+                  message=f"get_attname: `{norm_stmt(r.ast)}` can hand out a name with a leading underscore",
+                  necessity="the data-class machinery treats underscore-prefixed attributes as private, not as fields: a "
+                            "property named '2nd' (-> '_2nd') silently loses its type, constraints and `required`",
+                  node=r.ast)
+    # the trigger must cover the private prefix as well (cross-module agreement with validate_field_name)
+    v = run.repo.func("utype.parser.base", "BaseParser.validate_field_name")
+    private = "startswith('_')" in unparse(v.node).replace('"', "'")
+    f = run.repo.func(PARSER, "JsonSchemaParser.parse_object")
+    ffa = analysis(f)
+    trig = [n for n in ffa.cfg.nodes if n.kind == "test" and "valid_attr(" in unparse(n.ast)]
+    if private and trig:
+        ok = any("startswith('_')" in unparse(n.ast).replace('"', "'") for n in trig)
+        va = run.repo.maybe_func("utype.utils.functional", "valid_attr")
+        if va is not None and "startswith('_')" in unparse(va.node).replace('"', "'"):
+            ok = True
+        run.check("R15h", f, "a property name with a leading underscore is sanitised too", ok,
+                  construct="private-prefix names bypass the sanitiser",
+                  message="parse_object renames a property only when it is not an identifier / already used / a base-class "
+                          "attribute; a valid identifier starting with '_' keeps its name, and BaseParser.validate_field_name "
+                          "does not accept such names as fields",
+                  necessity="{'properties': {'_x': {'type': 'integer'}}, 'required': ['_x']} builds a class without the "
+                            "field: {'y': 1} is accepted although _x is required, and '_x': 'abc' is never checked",
+                  node=trig[0].ast)
+
+
 def check(run):
-    run.rules_run += ["R15a", "R15b", "R15c", "R15d", "R15e", "R15f"]
+    run.rules_run += ["R15a", "R15b", "R15c", "R15d", "R15e", "R15f", "R15g", "R15h"]
     run.explain("Static tables-and-shapes check of the JSON-Schema translator: CONSTRAINTS_MAP / TYPE_MAP folded from "
                 "source and compared with the JSON-Schema vocabulary (implication, not equality); nullable .get() "
                 "results never called or dereferenced unguarded; recursion only on strict components; every trigger "
@@ -523,3 +650,5 @@ def check(run):
     r15cf(run)
     r15d(run)
     r15e(run)
+    r15g(run)
+    r15h(run)
